@@ -369,7 +369,7 @@ class C13(PropBase):
 
     def gen(self, rng, tier, focus=None):
         q = tier == "quick"
-        mult = 1 if q else 25
+        mult = 1 if q else 50
         out = []
         # the witness of F12 on every group-by setting (fixed list, every run)
         for gb in GROUP_BYS:
@@ -378,19 +378,19 @@ class C13(PropBase):
                                [(t - 30) * NS, (t + 1740) * NS, (t + 5340) * NS], shuffle=False))
         for what in ("year", "month", "day", "week"):
             for gb in GROUP_BYS:
-                for _ in range(6 * mult):
+                for _ in range(15 * mult):
                     out.append(self.b_period(rng, what, gb))
-        for _ in range(60 * mult):
+        for _ in range(150 * mult):
             out.append(self.b_iso_newyear(rng))
-        for _ in range(50 * mult):
-            out.append(self.b_extreme(rng))
         for _ in range(120 * mult):
+            out.append(self.b_extreme(rng))
+        for _ in range(300 * mult):
             out.append(self.b_fallback(rng))
-        for _ in range(60 * mult):
+        for _ in range(150 * mult):
             out.append(self.b_selector(rng))
-        for _ in range(30 * mult):
+        for _ in range(80 * mult):
             out.append(self.b_years(rng))
-        for _ in range(200 * mult):
+        for _ in range(600 * mult):
             out.append(self.b_random(rng))
         if not q:
             # every backward transition of the core zones
